@@ -124,7 +124,7 @@ impl<'a, 'd> G<'a, 'd> {
                     false,
                 ));
             }
-            self.p.fns.push(FnDef {
+            self.p.fns.push(FnDef { owner: None, bounds: vec![],
                 name: format!("worker{}", self.spawns),
                 tparams: 0,
                 params: vec![],
@@ -184,7 +184,7 @@ pub fn gen_go_program(d: &mut Dec) -> GProg {
     }
     let last = g.stmt("m", 0);
     stmts.push(last);
-    g.p.fns.push(FnDef {
+    g.p.fns.push(FnDef { owner: None, bounds: vec![],
         name: "main".into(),
         tparams: 0,
         params: vec![],
